@@ -5,6 +5,9 @@ from group_common import GroupSpec
 PROP_FILES = ["C17"]
 
 
+SPECS = {"group": (GroupSpec(), "harness_group", "runner-group")}
+
+
 def run(ctx):
     proofs_ok = ctx.check_proofs(PROP_FILES, extra_targets=["theories/Conc/Group.vo"])
     ok, out, exe = vlib.build_runner(module="harness_group", exe_name="runner-group")
